@@ -53,6 +53,14 @@ def g_value(rng, nonempty=False):
     if r < 0.5:
         core = bytes(rng.randrange(256) for _ in range(rng.randrange(0, 5)))
         return bytes([rng.choice(SPECIAL_BYTES)]) + core + bytes([rng.choice(SPECIAL_BYTES)])
+    if r < 0.58:
+        # text that is NOT stable under Unicode normalisation / case mapping / stringprep (written raw in sentences when it is valid UTF-8): the
+        # value octets are the UTF-8 of the characters AS WRITTEN
+        import gen as _gen
+        t_ = rng.choice(_gen.UNSTABLE_TEXTS)
+        if rng.random() < 0.3:
+            t_ = rng.choice(["\\", "a", ""]) + rng.choice(["\u0301", "\u0338", "\u0323\u0301", "\u212a", "\ufa0e"]) + t_
+        return t_.encode("utf-8")
     if r < 0.6:
         return rng.choice([b"\\", b"\\5c", b"\\2a", b"*", b"**", b")(", b"a)(b=c", b"*)(uid=*", b"\xc3\xa9", "日本".encode(), b"a=b", b":dn:", b" x "])
     n = rng.choice([1, 2, 3, 8, 20])
